@@ -197,6 +197,24 @@ func TestVerifC13(t *testing.T) {
 					unknown = left + sep + v + sep + right
 				}
 			}
+			// sometimes a SECOND known value follows closely (a short one before a long one
+			// and vice versa): both copies must be reported
+			second := -1
+			if gen != "glued" && copies == 1 && r.Intn(3) == 0 {
+				for _, j := range r.Perm(len(vals)) {
+					if j != pi && ok[j] {
+						second = j
+						break
+					}
+				}
+				if second >= 0 {
+					if r.Intn(2) == 0 {
+						unknown = left + sep + v + sep + vals[second] + sep + right
+					} else {
+						unknown = left + sep + vals[second] + sep + v + sep + right
+					}
+				}
+			}
 			cs.params["placement"] = placement
 			cs.params["value"] = v
 			cs.hostileInput([]byte(unknown))
@@ -205,9 +223,12 @@ func TestVerifC13(t *testing.T) {
 				return // the construction is not unambiguous (tiny vocabularies): skip
 			}
 			for j := range vals {
-				if j != pi && strings.Contains(normU, normV[j]) {
+				if j != pi && j != second && strings.Contains(normU, normV[j]) {
 					return // another value occurs verbatim as well: outside this case's oracle
 				}
+			}
+			if second >= 0 && sCount(normU, normV[second]) != 1 {
+				return
 			}
 			ms := c.MultipleMatch(unknown)
 			e.count("multiplematch_calls", 1)
@@ -239,6 +260,20 @@ func TestVerifC13(t *testing.T) {
 					missing = fmt.Sprintf("copy %d of %q expected at off=%d ext=%d with confidence 1.0", k, normV[pi], off, len(normV[pi]))
 				}
 				pos = off + len(normV[pi])
+			}
+			if allFound && second >= 0 {
+				off := strings.Index(normU, normV[second])
+				found := false
+				for _, m := range ms {
+					if m.Name == keys[second] && m.Confidence == 1.0 && m.Offset == off && m.Extent == len(normV[second]) {
+						found = true
+					}
+				}
+				if !found {
+					allFound = false
+					missing = fmt.Sprintf("second value %q expected at off=%d ext=%d with confidence 1.0 (first value %q was reported)", normV[second], off, len(normV[second]), normV[pi])
+				}
+				e.count("two_value_cases", 1)
 			}
 			if !allFound {
 				if gen == "glued" {
